@@ -96,7 +96,8 @@ def _settings(n: int, shrink: bool, steps: int | None = None):
     if shrink:
         phases.append(Phase.shrink)
     kw = dict(
-        max_examples=max(1, n),
+        # Hypothesis always starts a run with its simplest example: small per-shard budgets would otherwise spend a large share on the same case
+        max_examples=max(1, n) + (1 if n <= 12 else 0),
         database=None,
         deadline=None,
         derandomize=False,
